@@ -272,7 +272,7 @@ def _sf(pid, main, extra, headline, minobs, rule_tail, quick=4000, thorough=1500
                   "min_observed": {"quick": minobs}, "assumptions": _SF_ASSUME, "key_prefixes": [pid + "/"]}
 
 
-_sf("C04", "waits", ["mixed", "lifecycle"],
+_sf("C04", "waits", ["mixed", "lifecycle", "condition"],
     ["holds_checked", "followup_holds_checked", "c04_pending_event_audits", "ret_hold_by_interrupt", "ret_hold_by_timer", "ret_wait_process_by_timer",
      "ret_wait_event_by_timer", "ret_resource_acquire_by_timer", "ret_yield_by_resume", "coincidence_timer_with_other_cause",
      "coincidence_interrupt_with_other_cause", "c04_interrupts_never_delivered", "instant_boundaries_checked", "exhaustions_checked"],
@@ -344,6 +344,13 @@ _sf("C14", "recording", ["mixed"],
 
 _add_job("C12", J("exp-queues-in-concurrent-trials", "expcheck", "rel", 2, 24, 3000, timeout=300, chunk=2, claim="C12/concurrent-trials/"))
 _add_job("C12", J("exp-queues-in-concurrent-trials-tsan", "expcheck", "tsan", 2, 4, 100, timeout=600, chunk=1, claim="C12/concurrent-trials/"))
+_add_job("C04", J("sf-directed-clear-and-continue", "simfuzz", "rel", 104, 480, 4800))
+_add_job("C04", J("sf-directed-same-instant-restart", "simfuzz", "rel", 106, 1344, 2688))
+_add_job("C09", J("sf-directed-clear-and-continue", "simfuzz", "rel", 104, 480, 4800))
+_add_job("C09", J("sf-directed-same-instant-restart", "simfuzz", "rel", 106, 672, 2688))
+_add_job("C13", J("sf-directed-condition-crowd", "simfuzz", "rel", 105, 360, 3600, timeout=120))
+_add_job("C06", J("sf-directed-condition-crowd", "simfuzz", "rel", 105, 360, 3600, timeout=120))
+_add_job("C01", J("sf-waits-event-layer", "simfuzz", "rel", 0, 6000, 400000, timeout=60, chunk=2500))
 _add_job("C08", J("sf-directed-first-in-line-leaves", "simfuzz", "rel", 103, 1120, 2240))
 _add_job("C06", J("sf-directed-first-in-line-leaves", "simfuzz", "rel", 103, 560, 2240))
 _add_job("C14", J("sf-directed-long-histories", "simfuzz", "rel", 102, 24, 600, timeout=120, chunk=2))
@@ -366,6 +373,9 @@ PROPS["C10"] = {
            J("sf-directed-first-in-line-leaves-asan", "simfuzz", "asan", 103, 280, 2240, timeout=120),
            J("sf-directed-long-histories-reported-in-process-asan", "simfuzz", "asan", 102, 6, 60, timeout=300, chunk=1),
            J("sf-directed-long-histories-reported-in-process-rel", "simfuzz", "rel", 102, 12, 300, timeout=120, chunk=2),
+           J("sf-directed-clear-and-continue-asan", "simfuzz", "asan", 104, 120, 960, timeout=120),
+           J("sf-directed-condition-crowd-asan", "simfuzz", "asan", 105, 60, 720, timeout=300),
+           J("sf-directed-same-instant-restart-asan", "simfuzz", "asan", 106, 168, 1344, timeout=120),
            J("sf-directed-tag-pools-asan", "simfuzz", "asan", 101, 2, 8, timeout=300),
            J("sf-directed-tag-pools-rel", "simfuzz", "rel", 101, 2, 8, timeout=300)]
         + [J("sf-mixed-memcheck", "simfuzz", "rel", 11, 64, 2000, timeout=600, extra=_VG, chunk=4),
